@@ -8,7 +8,11 @@ import json, os, shutil, subprocess, sys, tempfile, time
 HOME = os.path.dirname(os.path.dirname(os.path.abspath(__file__)))
 
 def main():
-    args = [a for a in sys.argv[1:] if not a.startswith("--")]
+    argv = sys.argv[1:]
+    if "--runs" in argv:
+        i = argv.index("--runs")
+        argv = argv[:i] + argv[i + 2:]
+    args = [a for a in argv if not a.startswith("--")]
     pid = args[0]
     flt = args[1] if len(args) > 1 else ""
     extra = []
@@ -29,7 +33,7 @@ def main():
             if s.count(m["old"]) != 1:
                 results.append((m["name"], "STALE (pattern occurs %d times)" % s.count(m["old"]), 0))
                 continue
-            open(p, "w").write(s.replace(m["old"], m["new"]))
+            open(p, "w").write(s.replace(m["old"], m["new"]) + m.get("append", ""))
             b = subprocess.run(["go", "build", "./..."], cwd=repo, capture_output=True, text=True,
                                env=dict(os.environ, GOFLAGS="-mod=mod", GOPROXY="off", GOSUMDB="off", GOTOOLCHAIN="local"))
             if b.returncode != 0:
